@@ -100,6 +100,30 @@ def apply_op(path, model, op):
     """Apply op to the real file and to the model.  Returns (new_model, error-message-or-None)."""
     import thejoker as tj
 
+    if op[0] == "batch":
+        if model is None:
+            return model, None
+        import astropy.units as u
+        from thejoker.utils import read_batch
+
+        cols = [c for c in ("P", "s", "e", "omega") if c in model.cols]
+        want_units = {"P": u.day, "s": u.km / u.s, "omega": u.rad}
+        n = len(model)
+        try:
+            out1 = np.asarray(read_batch(path, cols, (0, n), units=want_units))
+            out2 = np.asarray(read_batch(path, cols, np.arange(n)[::-1].copy(), units=want_units))
+        except Exception as e:
+            return model, f"read_batch raised {type(e).__name__}: {e}"
+        want = np.zeros((n, len(cols)))
+        for j, c in enumerate(cols):
+            v, un = model.cols[c]
+            f = (u.Unit(un) if un else u.one).to(want_units[c]) if c in want_units else 1.0
+            want[:, j] = v * f
+        if out1.shape != want.shape or not np.allclose(out1, want, rtol=1e-13, atol=0):
+            return model, f"read_batch(range) does not return the file's rows in the requested units: {out1.tolist()} vs {want.tolist()}"
+        if out2.shape != want.shape or not np.allclose(out2, want[::-1], rtol=1e-13, atol=0):
+            return model, f"read_batch(index array) does not return the file's rows in the requested units: {out2.tolist()} vs {want[::-1].tolist()}"
+        return model, None
     if op[0] == "read":
         try:
             got = read_impl(path)
@@ -157,25 +181,32 @@ def apply_op(path, model, op):
     return result, None
 
 
+_WORKLOG = []  # (parent history, op) applied so far at this process's work path
+
+
 def expand(args):
     """worker: expand one state (file + model + history) by every operation."""
     (sfile, model, hist, scratch, wid) = args
     part = core.Part()
     out = []
-    ops = [("read",)] + [("write", t, m) for t in TABLES for m in MODES]
+    ops = [("read",), ("batch",)] + [("write", t, m) for t in TABLES for m in MODES]
     for oi, op in enumerate(ops):
-        path = os.path.join(scratch, f"w{wid}-{os.getpid()}-{oi}.hdf5")
+        # ONE path per worker process, reused for every state and operation: anything keyed on the file name
+        # (a cache) sees the same name with different contents - forced collisions
+        path = os.path.join(scratch, f"work-{os.getpid()}.hdf5")
         if os.path.exists(path):
             os.unlink(path)
         if sfile is not None:
             shutil.copyfile(sfile, path)
         new_model, err = apply_op(path, model, op)
+        _WORKLOG.append((hist, list(op)))
         part.transitions += 1
         h = hist + [list(op)]
         part.record(dict(history=h), outcome=(None if new_model is None else new_model.key(), err is None),
                     nontrivial=(op[0] == "write" and op[2] == "append" and model is not None))
         if err:
-            part.violation(dict(kind="history", history=h), err)
+            # worklog: everything applied before at the same work path (needed to reproduce name-keyed hidden state)
+            part.violation(dict(kind="history", history=h, worklog=[[a, b] for a, b in _WORKLOG[:-1]]), err)
             if os.path.exists(path):
                 os.unlink(path)
             continue
@@ -189,9 +220,34 @@ def expand(args):
     return part, out
 
 
-def replay_history(hist, part):
+def _rebuild(hist, path):
+    if os.path.exists(path):
+        os.unlink(path)
+    model = None
+    for op in hist:
+        model, err = apply_op(path, model, tuple(op))
+    return model
+
+
+def replay_history(hist, part, worklog=None):
     scratch = seams.fresh_dir("c12r")
     path = os.path.join(scratch, f"replay-{os.getpid()}.hdf5")
+    tmp = os.path.join(scratch, f"replay-state-{os.getpid()}.hdf5")
+    if worklog:
+        # re-apply everything the worker had applied at its single work path before the failing transition
+        for parent, op in list(worklog) + [[hist[:-1], hist[-1]]]:
+            model = _rebuild(parent, tmp)
+            if os.path.exists(path):
+                os.unlink(path)
+            if os.path.exists(tmp):
+                shutil.copyfile(tmp, path)
+            model, err = apply_op(path, model, tuple(op))
+        if err:
+            part.violation(dict(kind="history", history=hist), err)
+        for f in (path, tmp):
+            if os.path.exists(f):
+                os.unlink(f)
+        return
     if os.path.exists(path):
         os.unlink(path)
     model = None
@@ -348,7 +404,7 @@ def check_batch(case, part):
 
 def run_case(case, part):
     if case["kind"] == "history":
-        replay_history(case["history"], part)
+        replay_history(case["history"], part, case.get("worklog"))
     elif case["kind"] == "fits":
         check_fits(case, part)
     else:
@@ -401,7 +457,8 @@ def build_batch_cases(quick):
 def main():
     chk = core.Check(
         PID, "model_checking",
-        "BFS over write/overwrite/append/read histories (11 tables x 3 write modes + read per state) on a real HDF5 file per state, "
+        "BFS over write/overwrite/append/read/batch-read histories (11 tables x 3 write modes + read + read_batch per state) on a real HDF5 "
+        "file per state (applied at one re-used path per worker, so file-name-keyed state collides), "
         "deduplicated on the reference file model (asserted equal to the file content in every state); FITS write/overwrite/read "
         "histories of depth<=2; read_batch: every (start,stop,step) tuple and slice, every index array of length<=3 (repeats, any "
         "order), scripted random reads x column subsets x unit requests. Non-trivial: an append onto an existing table (histories); "
